@@ -830,7 +830,11 @@ def judge_restart(sess: Session, content, res, original_start_f, context: str):
             sess.viol('C15/iterfile-overwritten-by-evaluation-on-resampled-data' if sess.allow_foreign else 'C15/restart-begins-below-original-start',
                       f'[{context}] the later estimation starts at LL {first["f"]!r}, the original one started at {original_start_f!r}', **wit)
     if res.get('exc'):
-        if P['ok'] and _is_tame(P['values']):
+        if res['exc'][0] == 'OptimizationError':
+            # the restart did begin at the saved values; the optimisation algorithm then gave up (e.g. the LS-newton line search
+            # from an intermediate iterate): a property of the algorithm and its starting point, not of the restart point
+            rec.c('restart_optimiser_gave_up_after_starting_from_saved_values')
+        elif P['ok'] and _is_tame(P['values']):
             sess.viol(f'C15/restart-estimation-fails-after-start-{res["exc"][0]}', f'[{context}] estimate() raised {res["exc"][0]}: {res["exc"][1]}', **wit)
         else:
             rec.c('restart_optimiser_failed_after_start_on_hostile_values')
